@@ -188,6 +188,18 @@ func c04r2(c *Ctx) {
 				continue
 			}
 			v, neg := stripNot(i.Cond)
+			// "first request" spelled as a helper of the package: every non-false answer of the helper lies under its own
+			// empty-nonce / no-record edge, or is such a comparison itself
+			if hc, isCall := v.(*ssa.Call); isCall {
+				if sc := hc.Call.StaticCallee(); sc != nil && len(sc.Blocks) > 0 && funcPkgPath(sc) == funcPkgPath(fn) && impliesFirstRequest(sc) {
+					idx := 0
+					if neg {
+						idx = 1
+					}
+					allowed = append(allowed, Edge{i.Block(), idx})
+				}
+				continue
+			}
 			b, ok := v.(*ssa.BinOp)
 			if !ok || (b.Op != token.EQL && b.Op != token.NEQ) {
 				continue
@@ -461,12 +473,8 @@ func c04r4a(c *Ctx) {
 			n++
 			// (1) call site dominated by a non-nil GetWatchedResource(typeArg) result
 			siteSafe := false
-			for _, i := range allIfs(fn) {
-				x, eq, ok := nilCmp(i.Cond)
-				if !ok {
-					continue
-				}
-				call, isCall := x.(*ssa.Call)
+			for _, nt := range nilTests(fn) {
+				call, isCall := nt.X.(*ssa.Call)
 				if !isCall {
 					continue
 				}
@@ -477,11 +485,7 @@ func c04r4a(c *Ctx) {
 				if len(ga) == 0 || !sameValue(ga[len(ga)-1], typeArg) {
 					continue
 				}
-				idx := 1
-				if !eq {
-					idx = 0
-				}
-				if underEdges(fn, ins.Block(), []Edge{{i.Block(), idx}}) {
+				if underEdges(fn, ins.Block(), []Edge{{nt.If.Block(), nt.NonNilIdx}}) {
 					siteSafe = true
 				}
 			}
@@ -774,16 +778,11 @@ func c04r4c(c *Ctx) {
 	n := 0
 	derefsGuarded := func(fn *ssa.Function, r ssa.Value) (bool, token.Pos) {
 		var nonNil []Edge
-		for _, i := range allIfs(fn) {
-			x, eq, ok := nilCmp(i.Cond)
-			if !ok || x != r {
+		for _, nt := range nilTests(fn) {
+			if nt.X != r {
 				continue
 			}
-			idx := 0
-			if eq {
-				idx = 1
-			}
-			nonNil = append(nonNil, Edge{i.Block(), idx})
+			nonNil = append(nonNil, Edge{nt.If.Block(), nt.NonNilIdx})
 		}
 		okAll, bad := true, token.NoPos
 		if r.Referrers() == nil {
@@ -1093,4 +1092,82 @@ func c04r7(c *Ctx) {
 	}
 	c.Check("stale-nonce returns found", fn.Pos(), n >= 1, "no return on the stale-nonce edge")
 	c.Floor(3)
+}
+
+
+// impliesFirstRequest: a bool helper that answers true only for "empty nonce" or "no record": every return that is not the
+// constant false lies under an edge `nonce == ""` / `record == nil` of the helper, or returns such a comparison itself.
+func impliesFirstRequest(h *ssa.Function) bool {
+	isEmptyNonce := func(v ssa.Value) (bool, bool) { // matched, true-means-empty
+		b, ok := v.(*ssa.BinOp)
+		if !ok || (b.Op != token.EQL && b.Op != token.NEQ) {
+			return false, false
+		}
+		for _, pr := range [][2]ssa.Value{{b.X, b.Y}, {b.Y, b.X}} {
+			if loadOfFieldNamed(pr[0], "ResponseNonce") {
+				if s, isC := constString(pr[1]); isC && s == "" {
+					return true, b.Op == token.EQL
+				}
+			}
+		}
+		return false, false
+	}
+	isNilRecord := func(v ssa.Value) (bool, bool) {
+		x, eq, ok := nilCmp(v)
+		if !ok {
+			return false, false
+		}
+		if _, isPar := x.(*ssa.Parameter); isPar {
+			return true, eq
+		}
+		return false, false
+	}
+	var first []Edge
+	for _, i := range allIfs(h) {
+		v, neg := stripNot(i.Cond)
+		if m, t := isEmptyNonce(v); m {
+			idx := 0
+			if t == neg {
+				idx = 1
+			}
+			first = append(first, Edge{i.Block(), idx})
+		}
+		if m, t := isNilRecord(i.Cond); m {
+			idx := 0
+			if !t {
+				idx = 1
+			}
+			first = append(first, Edge{i.Block(), idx})
+		}
+	}
+	n := 0
+	for _, b := range h.Blocks {
+		r, ok := b.Instrs[len(b.Instrs)-1].(*ssa.Return)
+		if !ok || len(r.Results) != 1 {
+			continue
+		}
+		v := retVal(r, 0)
+		if k, isC := constBool(v); isC && !k {
+			continue
+		}
+		n++
+		if underEdges(h, b, first) {
+			continue
+		}
+		var leaves []ssa.Value
+		phiLeaves(v, map[ssa.Value]bool{}, &leaves)
+		for _, l := range leaves {
+			if k, isC := constBool(l); isC && !k {
+				continue
+			}
+			if m, t := isEmptyNonce(l); m && t {
+				continue
+			}
+			if m, t := isNilRecord(l); m && t {
+				continue
+			}
+			return false
+		}
+	}
+	return n > 0
 }
